@@ -144,6 +144,12 @@ def fixtures(tmp):
     for g in good:
         h, p, s = g.split(".")
         bad.append("%s.%s.%s" % (h, p, ("A" if s[0] != "A" else "B") + s[1:]))
+    # the signature with the case of its first letter flipped (a different MAC, the same text to a case-blind comparison)
+    h, p, sg = good[0].split(".")
+    for i, ch in enumerate(sg):
+        if ch.isalpha():
+            bad.append("%s.%s.%s" % (h, p, sg[:i] + ch.swapcase() + sg[i + 1:]))
+            break
     bad.append("not-a-token")
     bad.append(good[0].rsplit(".", 1)[0] + ".")
     fx["good"], fx["bad"] = good, bad
